@@ -51,6 +51,8 @@ type Spec struct {
 	mute         bool
 	reopened     bool // the handle was closed / abandoned and reopened at least once
 	prevOp        string
+	rejectedSeen  bool // a write call of this history was rejected for a logical reason (unique, invalid, json ...)
+	lastAll       map[int]string // what the last All returned, by uuid number (nil: not fresh any more)
 	damaged       bool   // an object file or schema.json was damaged from outside in a way Repair does not undo
 	repairedOK    int    // 1: the previous call was a Repair that returned no error (nothing in between); 2: and Control then succeeded
 	afterRepair   string // sweep (count/all) of the handle after that Repair + Control
@@ -111,11 +113,16 @@ func (s *Spec) fail(e *Exec, prop, format string, a ...interface{}) {
 	}
 	//  - "Create ... may switch cache and asynchronous-write settings at any time without losing
 	//    pending writes": what is read after such a switch contradicts what was accepted: C17
+	//  - a read that contradicts the map in a history where a write was REJECTED: the rejected call may
+	//    have left a trace that shows only later (after a flush, a restart): C06 when its scenario runs
+	if s.rejectedSeen && s.prop == "C06" && (prop == "C01" || prop == "C02" || prop == "C03" || prop == "C10") {
+		extra["C06"] = true
+	}
 	if s.switched && (prop == "C01" || prop == "C02" || prop == "C03" || prop == "C10" || prop == "C13") {
 		extra["C17"] = true
 	}
 	delete(extra, prop)
-	for _, x := range []string{"C04", "C10", "C15", "C16", "C17"} {
+	for _, x := range []string{"C04", "C06", "C10", "C15", "C16", "C17"} {
 		if extra[x] {
 			fmt.Fprintf(e.w, "! %s [%s] %s\n", x, prop, msg)
 		}
@@ -290,6 +297,17 @@ func (s *Spec) Check(e *Exec, t []string) {
 			for _, x := range ft[2:] {
 				n, _ := strconv.Atoi(x)
 				fresh = append(fresh, n)
+			}
+		}
+		if ft[0] == "o" && len(ft) > 2 && ft[1] == "existafter" && ft[2] == "1" && !s.off && !s.mute && t[0] == "ins" {
+			s.fail(e, "C06", "a refused insertion of a new object left a trace at once: Exist answers true for it (op %.80s)", strings.Join(t, " "))
+		}
+		if ft[0] == "o" && len(ft) > 2 && ft[1] == "snap" {
+			// a process death now (C05): the new process must be told, or index and files agree
+			if !s.faulted && !s.outside && !s.damaged && s.crashCtx == "" && !s.mute && s.variant <= 1 &&
+				(strings.HasPrefix(ft[2], "silent") || ft[2] == "panic") {
+				s.fail(e, "C05", "[process death after %s] a new process opening the directory is told nothing (first load and Control succeed) but %s", t[0], ft[2])
+				s.fail(e, "C11", "Control on a fresh handle succeeds although %s", ft[2])
 			}
 		}
 		if ft[0] == "o" && len(ft) > 1 && ft[1] == "fault" && ft[2] == "fired=1" {
@@ -849,6 +867,19 @@ func (s *Spec) stateOracles(e *Exec, t, r []string) {
 		s.repairedOK, s.afterRepair, s.wantSweep = 0, "", ""
 	}
 	defer func() { s.prevOp = t[0] }()
+	switch t[0] {
+	case "all":
+		s.lastAll = nil
+		if r[0] == "ok" && len(r) >= 2 {
+			s.lastAll = map[int]string{}
+			for _, tok := range r[2:] {
+				s.lastAll[parseFlat(tok).U] = tok
+			}
+		}
+	case "count", "dump", "control", "fs":
+	default:
+		s.lastAll = nil
+	}
 	// bookkeeping for the asynchronous-write oracles
 	switch t[0] {
 	case "tick":
@@ -942,6 +973,9 @@ func (s *Spec) stateOracles(e *Exec, t, r []string) {
 			s.lastSweep = cur
 		}
 	case "ins", "many", "bulk":
+		if r[0] == "unique" || r[0] == "invalid" || r[0] == "json" || r[0] == "wrongtype" {
+			s.rejectedSeen = true
+		}
 		if r[0] != "ok" && r[0] != "panic" && s.lastSweep != "" && !(t[0] == "bulk" && len(r) > 1 && r[1] != "0") {
 			isUpd := t[0] == "ins" && !strings.HasPrefix(t[1], "R0|")
 			s.pending = &failedWrite{op: strings.Join(t, " "), class: r[0], before: s.lastSweep, isUpdate: isUpd}
@@ -995,6 +1029,7 @@ func (s *Spec) stateOracles(e *Exec, t, r []string) {
 		s.flushedInTime(e)
 		s.committed(e)
 		s.agreement(e)
+		s.readsAreFiles(e)
 	case "repair":
 		if e.repairTouched && !s.faulted && s.crashCtx == "" {
 			s.fail(e, "C11", "Repair modified, added or deleted an object file (digest of the directory entries other than schema.json changed)")
@@ -1137,6 +1172,32 @@ func (s *Spec) committed(e *Exec) {
 		if _, ok := s.live[u]; !ok {
 			s.fail(e, prop, "%s returned without error and the committed schema still names object #%d, which is not in the collection", s.justCommitted, u)
 			return
+		}
+	}
+}
+
+// readsAreFiles: synchronous mode, no storage fault or crash in the history: what All just returned for
+// an object is the content of its file (whatever happened before: outside additions, Repair, reopen):
+// "after Repair ... searches agree with file contents" (C05/C11), "a cached read returns a value equal to
+// a file round trip" (C14)
+func (s *Spec) readsAreFiles(e *Exec) {
+	if s.lastAll == nil || e.cfg.Async || s.faulted || s.crashCtx != "" || s.mute || s.variant > 1 {
+		return
+	}
+	for _, l := range e.obs {
+		f := strings.Fields(l)
+		if len(f) >= 4 && f[0] == "s" && f[1] == "file" && strings.HasPrefix(f[2], "U") && f[3] != "BAD" {
+			u, err := strconv.Atoi(canonU(f[2])[1:])
+			if err != nil {
+				continue
+			}
+			if tok, ok := s.lastAll[u]; ok && tok != f[3] {
+				s.fail(e, "C11", "synchronous mode, nothing pending: All returns for object #%d a content that is not the content of its file: read %.120s file %.120s", u, tok, f[3])
+				if s.reopened || s.outside {
+					s.fail(e, "C05", "[after repair or reopen] All returns for object #%d a content that is not the content of its file", u)
+				}
+				return
+			}
 		}
 	}
 }
